@@ -212,6 +212,8 @@ type appCases struct {
 	Sizes    []int                                               `json:"sizes"`
 	FailSets [][]string                                          `json:"failsets"`
 	N        int                                                 `json:"n"`
+	// registration histories (C17): sequences over reg1, reg2, del, call1, call2
+	Histories [][]string `json:"histories"`
 }
 
 func loadAppCases(a *Args) *appCases {
@@ -330,6 +332,66 @@ func appAuthDriver(a *Args) {
 		sig := fmt.Sprintf("auth:%s/%s/%s/%s", c.Endpoint, c.Identity, c.Backend, c.Rid)
 		hx.Emit("AgentCall", "case", fmt.Sprint(i), "sig", sig, "call", call, "obs", obs)
 		res.Case(sig, map[string]interface{}{"classes": c, "status": st})
+	}
+	// registrations that change over time (histories enumerated by TLC from AppAuth.tla): every agent call is
+	// judged against the registration in force when it is made
+	for i, h := range cases.Histories {
+		id := fmt.Sprintf("hist-%d", i)
+		users := map[string]string{"1": "hist-agent-1@example.com", "2": "hist-agent-2@example.com"}
+		announce := func(user string) {
+			list := []appBackend{}
+			if user != "" {
+				list = append(list, appBackend{ID: id, EndUser: "hist-user@example.com", BackendUser: user, Prefixes: []string{"/" + id}, live: true})
+			}
+			hx.Emit("Backends", "list", backendsEvent(list))
+		}
+		announce("")
+		for k, op := range h {
+			switch {
+			case strings.HasPrefix(op, "reg"):
+				u := users[strings.TrimPrefix(op, "reg")]
+				if st := e.addBackend(appBackend{ID: id, EndUser: "hist-user@example.com", BackendUser: u, Prefixes: []string{"/" + id}}); st != 200 {
+					res.Bad("history %d: cannot register backend: %d", i, st)
+				}
+				announce(u)
+			case op == "del":
+				e.deleteBackend(id)
+				announce("")
+			default:
+				u := users[strings.TrimPrefix(op, "call")]
+				before := e.ae.Snapshot()
+				ncalls := e.ae.NCalls()
+				endpoint := []string{"request", "response"}[(i+k)%2]
+				var st int
+				var body []byte
+				if endpoint == "request" {
+					st, body, _, _ = e.do(e.agPort, "GET", "/agent/request", agentHdr(u, id, "no-such-request"), nil, 0)
+				} else {
+					st, body, _, _ = e.do(e.agPort, "POST", "/agent/response", agentHdr(u, id, "no-such-request"), []byte("HTTP/1.1 200 OK\r\nContent-Length: 2\r\n\r\nok"), 0)
+				}
+				after := e.ae.Snapshot()
+				leaked := false
+				for r, sec := range secret {
+					if bytes.Contains(body, []byte(sec)) || bytes.Contains(body, []byte(r)) {
+						leaked = true
+					}
+				}
+				ownOnly := true
+				for _, call := range e.ae.CallsSince(ncalls) {
+					for _, kd := range call.Kinds {
+						if strings.HasPrefix(kd, "req:") && kd != fmt.Sprintf("req:%q", id) {
+							ownOnly = false
+						}
+					}
+				}
+				call := map[string]interface{}{"endpoint": endpoint, "oauth": u, "backend": id, "rid": "unknown"}
+				obs := map[string]interface{}{"status": st, "leaked": leaked, "changed": before != after, "own_only": ownOnly}
+				sig := fmt.Sprintf("authhist:%s@%d", strings.Join(h, ","), k+1)
+				hx.Emit("AgentCall", "case", fmt.Sprintf("h%d-%d", i, k), "sig", sig, "call", call, "obs", obs)
+			}
+		}
+		e.deleteBackend(id)
+		res.Case("authhist:"+strings.Join(h, ","), map[string]interface{}{"history": h})
 	}
 	// admin API: every call with every kind of caller
 	type adm struct {
